@@ -6,11 +6,24 @@ VERIF = os.path.dirname(os.path.dirname(os.path.abspath(__file__)))
 sys.path.insert(0, VERIF)
 
 E1 = "bounded-exhaustive small-scope enumeration of (configuration x input) on the real code, judged by an independent brute-force oracle"
+def e1(ref, what, oracle, note=None):
+    return dict(engine="E1", cat="model_checking", ref=ref,
+                technique="explicit-state bounded-exhaustive enumeration of (configuration x input) executed on the real code; " + oracle,
+                text=what + " Every point of the stated finite space is executed and judged - a coverage statement within bounds, not a sample.",
+                note=note or "Holds only within the enumerated bounds (evidence.coverage.bounds). Trusted base: the oracles in mc/oracles.py (cross-validated by ./check --selftest), mc/judge.py, mc/repo.py.")
+
+
 CHECKS = {
-    "C01": dict(engine="E1", cat="model_checking", ref="DESIGN.md section 4 C01",
-                technique="explicit-state bounded-exhaustive enumeration (all multisets x bin counts x algorithms x switch combinations), conservation oracle",
-                text="Every (input, numbins, algorithm, configuration) point of the stated bounded space is executed on the real code and judged for item conservation, bin count and absence of a missing result; a coverage statement over a finite space, not a sample.",
-                note="Holds only within the enumerated bounds (evidence.coverage.bounds); oracle is multiset comparison of names; trusted base: mc/judge.py, mc/repo.py."),
+    "C01": e1("DESIGN.md section 4 C01", "All multisets x bin counts x partitioners x complete-greedy switch/objective combinations x input formats are run and judged for item conservation, bin count and absence of a missing result.", "conservation oracle on item names"),
+    "C02": e1("DESIGN.md section 4 C02", "Every exact algorithm, objective and complete-greedy switch combination is compared on every input of the scope with the optimum over ALL set partitions.", "exhaustive optimum (restricted-growth enumeration) as oracle; ILP disagreements re-solved with preprocessing off"),
+    "C03": e1("DESIGN.md section 4 C03", "All arrival orders / multisets x bin sizes x packers x output types are run and judged for feasibility, conservation, no empty bin and consistent bin counts.", "feasibility/conservation oracle recomputed from the returned items"),
+    "C04": e1("DESIGN.md section 4 C04", "Bin-completion is compared with the exhaustive optimum on every multiset of the scope, in two presentation orders and three output types.", "branch-and-bound optimum as oracle (cross-validated against subset DP)"),
+    "C05": e1("DESIGN.md section 4 C05", "All multisets (items larger than the bin included) x bin sizes x covering algorithms x formats are judged for cover validity, single use of items and waste below one bin.", "validity oracle recomputed from the returned items"),
+    "C06": e1("DESIGN.md section 4 C06", "Every point is executed with all ten output types; the nine cheaper outputs must equal what is derived from the full partition output.", "differential oracle between output types of the same call"),
+    "C07": e1("DESIGN.md section 4 C07", "Every point is executed in five input formats with names anti-correlated to the values; sums multisets must agree and the named result must be a valid partition/packing/cover of the names.", "differential oracle across formats + validity oracle on names"),
+    "C08": e1("DESIGN.md section 4 C08", "The proven ratio and gap bounds of greedy, KK, multifit and round-robin are checked as exact integer inequalities against the exhaustive optimum, all planted instances and LPT's tight family.", "exhaustive optimum / optimum known by construction"),
+    "C09": e1("DESIGN.md section 4 C09", "The any-fit inequality and the bin-count bounds are checked on every arrival order of the scope, every multiset for the decreasing variants and every planted perfect packing.", "invariant on the observed packing; exhaustive / planted optimum for the count bounds"),
+    "C10": e1("DESIGN.md section 4 C10", "The approximation guarantees of the three covering heuristics are checked against the exhaustive cover optimum, every planted exact cover and the published worst-case families.", "exhaustive cover optimum (count-vector DP) / optimum known by construction"),
 }
 
 NOT_YET = "check not built yet in this round (planned: DESIGN.md section 4)"
